@@ -64,7 +64,7 @@ def _lists(ctx, rng):
     for cid in KNOWN + UNKNOWN:
         for size in (0, 2, 3, 10):
             yield [a, (cid, rng.randbytes(size)), b, (0x0043, b"\x01")], True
-    for _ in range(1500 if quick else 40000):
+    for _ in range(1500 if quick else 200000):
         n = rng.randint(1, 12)
         yield [_rand_record(rng) for _ in range(n)], (rng.random() < (0.3 if quick else 0.5))
 
